@@ -306,6 +306,304 @@ pub struct Coder {
     pub codes: Vec<PrefixCode>,
     /// largest value the data clusters can encode
     pub max_value: u32,
+    /// `Some`: ANS instead of prefix codes (`codes` is then unused)
+    #[serde(default)]
+    pub ans: Option<AnsSpec>,
+    /// tokens of the running ANS session (written by `end_session`)
+    #[serde(skip)]
+    pub pending: Pending,
+}
+
+/// One coded token waiting for the end of an ANS session.
+#[derive(Clone, Debug)]
+pub struct Tok {
+    cluster: u8,
+    token: u16,
+    nbits: u8,
+    bits: u32,
+}
+
+#[derive(Debug, Default)]
+pub struct Pending(std::sync::Mutex<Vec<Tok>>);
+
+impl Clone for Pending {
+    fn clone(&self) -> Self {
+        Pending(std::sync::Mutex::new(self.0.lock().unwrap().clone()))
+    }
+}
+
+#[derive(Clone, Debug, Serialize, Deserialize)]
+pub struct AnsSpec {
+    /// 5..=8
+    pub log_alpha: u32,
+    /// one distribution per cluster
+    pub dists: Vec<AnsDist>,
+}
+
+#[derive(Clone, Debug, Serialize, Deserialize)]
+pub enum AnsForm {
+    /// one symbol with probability 1
+    Unary,
+    /// two symbols
+    Binary,
+    /// symbols 0..n evenly
+    Flat,
+    /// log-count codes + mantissas; `omit` takes the remainder; zero runs as RLE when `rle`
+    General { shift: u32, omit: usize, rle: bool },
+}
+
+#[derive(Clone, Debug, Serialize, Deserialize)]
+pub struct AnsDist {
+    /// 12-bit frequencies, one per symbol of the alphabet (sum 4096)
+    pub dist: Vec<u16>,
+    pub form: AnsForm,
+}
+
+fn write_u8(w: &mut BitWriter, v: u32) {
+    if v == 0 {
+        w.bool(false);
+    } else {
+        w.bool(true);
+        let n = 31 - v.leading_zeros();
+        w.w(n as u64, 3);
+        w.w((v - (1 << n)) as u64, n);
+    }
+}
+
+/// The fixed prefix code of the log-count alphabet (0..=13).
+fn write_logcount(w: &mut BitWriter, code: u32) {
+    match code {
+        10 => w.w(0, 3),
+        4 => { w.w(1, 3); w.bool(true) }
+        0 => { w.w(1, 3); w.bool(false); w.bool(true) }
+        11 => { w.w(1, 3); w.bool(false); w.bool(false); w.bool(true) }
+        13 => { w.w(1, 3); w.bool(false); w.bool(false); w.bool(false); w.bool(true) }
+        12 => { w.w(1, 3); w.bool(false); w.bool(false); w.bool(false); w.bool(false) }
+        7 => w.w(2, 3),
+        1 => { w.w(3, 3); w.bool(true) }
+        3 => { w.w(3, 3); w.bool(false) }
+        6 => w.w(4, 3),
+        8 => w.w(5, 3),
+        9 => w.w(6, 3),
+        2 => { w.w(7, 3); w.bool(true) }
+        5 => { w.w(7, 3); w.bool(false) }
+        _ => unreachable!(),
+    }
+}
+
+fn mantissa_bits(shift: u32, zeros: u32) -> u32 {
+    (shift as i32 - ((12 - zeros as i32) >> 1)).clamp(0, zeros as i32) as u32
+}
+
+impl AnsDist {
+    /// A random distribution giving every symbol of `symbols` (sorted, < 2^log_alpha) a non-zero
+    /// frequency, in a randomly chosen header form that can represent it exactly.
+    pub fn random(rng: &mut Rng, symbols: &[u32], log_alpha: u32) -> Self {
+        let n = symbols.len();
+        let alphabet = *symbols.last().unwrap() as usize + 1;
+        assert!(alphabet <= 1 << log_alpha);
+        if n == 1 {
+            let mut dist = vec![0u16; alphabet];
+            dist[symbols[0] as usize] = 4096;
+            return Self { dist, form: AnsForm::Unary };
+        }
+        if n == 2 && rng.chance(1, 2) {
+            let mut dist = vec![0u16; alphabet];
+            let p = 1 + rng.below(4095) as u16;
+            dist[symbols[0] as usize] = p;
+            dist[symbols[1] as usize] = 4096 - p;
+            return Self { dist, form: AnsForm::Binary };
+        }
+        let contiguous = symbols.iter().enumerate().all(|(i, &s)| s as usize == i);
+        if contiguous && rng.chance(1, 4) {
+            let base = 4096 / n;
+            let left = 4096 % n;
+            let dist = (0..n).map(|i| (base + (i < left) as usize) as u16).collect();
+            return Self { dist, form: AnsForm::Flat };
+        }
+        // general form
+        let shift = *rng.pick(&[0u32, 3, 6, 8, 10, 12, 12, 13, 13]);
+        let alphabet = alphabet.max(3);
+        let mut dist = vec![0u16; alphabet];
+        let omit = symbols[rng.below(n as u64) as usize] as usize;
+        // everybody else starts at 1; then random representable upgrades within the budget
+        let mut acc = 0u32;
+        for &s in symbols {
+            if s as usize != omit {
+                dist[s as usize] = 1;
+                acc += 1;
+            }
+        }
+        let skew = rng.below(3);
+        for &s in symbols {
+            let s = s as usize;
+            if s == omit {
+                continue;
+            }
+            let budget = 4095 - acc + 1; // this symbol may grow to `budget`
+            if budget < 2 {
+                continue;
+            }
+            let zmax = (31 - budget.leading_zeros()).min(10);
+            let zeros = match skew {
+                0 => rng.below(zmax as u64 + 1) as u32,
+                1 => rng.below(zmax.min(4) as u64 + 1) as u32,
+                _ => if rng.chance(1, 6) { zmax } else { rng.below(zmax.min(3) as u64 + 1) as u32 },
+            };
+            let bc = mantissa_bits(shift, zeros);
+            let mut v = (1u32 << zeros) + ((rng.below(1 << bc) as u32) << (zeros - bc));
+            while v > budget {
+                v = 1 << zeros;
+                if v > budget {
+                    v = 1;
+                }
+            }
+            acc = acc - 1 + v;
+            dist[s] = v as u16;
+        }
+        dist[omit] = (4096 - acc) as u16;
+        Self { dist, form: AnsForm::General { shift, omit, rle: rng.chance(1, 2) } }
+    }
+
+    pub fn write(&self, w: &mut BitWriter) {
+        match &self.form {
+            AnsForm::Unary => {
+                w.bool(true);
+                w.bool(false);
+                write_u8(w, self.dist.iter().position(|&d| d == 4096).unwrap() as u32);
+            }
+            AnsForm::Binary => {
+                w.bool(true);
+                w.bool(true);
+                let v: Vec<usize> = (0..self.dist.len()).filter(|&i| self.dist[i] != 0).collect();
+                write_u8(w, v[0] as u32);
+                write_u8(w, v[1] as u32);
+                w.w(self.dist[v[0]] as u64, 12);
+            }
+            AnsForm::Flat => {
+                w.bool(false);
+                w.bool(true);
+                write_u8(w, self.dist.len() as u32 - 1);
+            }
+            AnsForm::General { shift, omit, rle } => {
+                w.bool(false);
+                w.bool(false);
+                let len = match *shift {
+                    0 => 0,
+                    1..=2 => 1,
+                    3..=6 => 2,
+                    _ => 3,
+                };
+                for _ in 0..len {
+                    w.bool(true);
+                }
+                if len < 3 {
+                    w.bool(false);
+                }
+                w.w((*shift + 1 - (1 << len)) as u64, len);
+                let n = self.dist.len();
+                write_u8(w, n as u32 - 3);
+                let code_of = |i: usize| -> u32 {
+                    if self.dist[i] == 0 { 0 } else { 32 - (self.dist[i] as u32).leading_zeros() }
+                };
+                let max_other = (0..n).filter(|&i| i != *omit).map(code_of).max().unwrap_or(0);
+                let mut i = 0;
+                while i < n {
+                    if i == *omit {
+                        write_logcount(w, (max_other + 1).min(12));
+                        i += 1;
+                        continue;
+                    }
+                    write_logcount(w, code_of(i));
+                    if self.dist[i] == 0 && *rle {
+                        // a run of further zeros after this explicit zero
+                        let mut run = 0;
+                        while i + 1 + run < n && i + 1 + run != *omit && self.dist[i + 1 + run] == 0 && run < 259 {
+                            run += 1;
+                        }
+                        if run >= 4 {
+                            write_logcount(w, 13);
+                            write_u8(w, run as u32 - 4);
+                            i += run;
+                        }
+                    }
+                    i += 1;
+                }
+                for i in 0..n {
+                    if i == *omit || self.dist[i] <= 1 {
+                        continue;
+                    }
+                    let zeros = 31 - (self.dist[i] as u32).leading_zeros();
+                    let bc = mantissa_bits(*shift, zeros);
+                    let m = (self.dist[i] as u32 - (1 << zeros)) >> (zeros - bc);
+                    debug_assert_eq!((1 << zeros) + (m << (zeros - bc)), self.dist[i] as u32, "frequency not representable");
+                    w.w(m as u64, bc);
+                }
+            }
+        }
+    }
+
+    /// symbol -> (frequency, slot index for each offset within the symbol), mirroring the
+    /// decoder's alias-table construction.
+    fn reverse_table(&self, log_alpha: u32) -> Vec<Vec<u16>> {
+        let table_size = 1usize << log_alpha;
+        let log_bucket = 12 - log_alpha;
+        let bucket_size = 1u32 << log_bucket;
+        let mut dist = vec![0u32; table_size];
+        for (i, &d) in self.dist.iter().enumerate() {
+            dist[i] = d as u32;
+        }
+        let alphabet_size = self.dist.len();
+        let mut rev: Vec<Vec<u16>> = dist.iter().map(|&d| vec![0u16; d as usize]).collect();
+        if let Some(single) = dist.iter().position(|&d| d == 4096) {
+            for idx in 0..4096u32 {
+                rev[single][idx as usize] = idx as u16;
+            }
+            return rev;
+        }
+        #[derive(Clone)]
+        struct B {
+            dist: u32,
+            alias_symbol: u32,
+            alias_offset: u32,
+            alias_cutoff: u32,
+        }
+        let mut buckets: Vec<B> = dist.iter().enumerate().map(|(i, &d)| B { dist: d, alias_symbol: if i < alphabet_size { i as u32 } else { 0 }, alias_offset: 0, alias_cutoff: d }).collect();
+        let mut underfull = Vec::new();
+        let mut overfull = Vec::new();
+        for (idx, b) in buckets.iter().enumerate() {
+            if b.dist < bucket_size {
+                underfull.push(idx);
+            } else if b.dist > bucket_size {
+                overfull.push(idx);
+            }
+        }
+        while let (Some(o), Some(u)) = (overfull.pop(), underfull.pop()) {
+            let by = bucket_size - buckets[u].alias_cutoff;
+            buckets[o].alias_cutoff -= by;
+            buckets[u].alias_symbol = o as u32;
+            buckets[u].alias_offset = buckets[o].alias_cutoff;
+            if buckets[o].alias_cutoff < bucket_size {
+                underfull.push(o);
+            } else if buckets[o].alias_cutoff > bucket_size {
+                overfull.push(o);
+            }
+        }
+        for idx in 0..4096u32 {
+            let i = (idx >> log_bucket) as usize;
+            let pos = idx & (bucket_size - 1);
+            let b = &buckets[i];
+            let (symbol, offset) = if b.alias_cutoff == bucket_size {
+                (i, pos)
+            } else if pos >= b.alias_cutoff {
+                (b.alias_symbol as usize, b.alias_offset - b.alias_cutoff + pos)
+            } else {
+                (i, pos)
+            };
+            rev[symbol][offset as usize] = idx as u16;
+        }
+        rev
+    }
 }
 
 impl Coder {
@@ -386,7 +684,49 @@ impl Coder {
                 codes[dc] = PrefixCode::random(rng, &toks);
             }
         }
-        Self { num_dist, lz77, cluster_map, map_form, configs, codes, max_value }
+        let mut coder = Self { num_dist, lz77, cluster_map, map_form, configs, codes, max_value, ans: None, pending: Pending::default() };
+        coder.maybe_ans(&toks);
+        coder
+    }
+
+    /// Switches to ANS when the tokens and integer configs fit an ANS alphabet. The choice and the
+    /// distributions are drawn from a generator seeded by the coder itself, so that the caller's
+    /// random stream is what it was before ANS existed.
+    fn maybe_ans(&mut self, data_tokens: &[u32]) {
+        let mut h = crate::harness::Fnv::new();
+        h.write(&self.codes[0].lengths);
+        h.write(&[self.configs[0].split_exponent as u8, self.configs[0].msb as u8, self.configs[0].lsb as u8, self.num_dist as u8]);
+        let mut rng = Rng::new(h.finish());
+        if !rng.chance(1, 2) {
+            return;
+        }
+        let max_tok = *data_tokens.iter().max().unwrap();
+        let Some(log_alpha) = (5..=8u32).find(|&l| {
+            max_tok < (1 << l) && self.configs.iter().all(|c| c.split_exponent < l || (c.split_exponent == l && c.msb == 0 && c.lsb == 0))
+        }) else {
+            return;
+        };
+        let log_alpha = if rng.chance(1, 3) { rng.range(log_alpha as i64, 8) as u32 } else { log_alpha };
+        if self.configs.iter().any(|c| c.split_exponent == log_alpha && (c.msb != 0 || c.lsb != 0)) {
+            return;
+        }
+        let mut sorted: Vec<u32> = data_tokens.to_vec();
+        sorted.sort();
+        sorted.dedup();
+        // all data clusters share one distribution (the writer does not know which leaf a sample hits)
+        let data = AnsDist::random(&mut rng, &sorted, log_alpha);
+        let mut dists = vec![data; self.configs.len()];
+        if let Some(lz) = &self.lz77 {
+            let dc = *self.cluster_map.last().unwrap() as usize;
+            if lz.rle {
+                dists[dc] = AnsDist::random(&mut rng, &[1], log_alpha);
+            } else {
+                let mt = self.configs[dc].max_token(255);
+                let toks: Vec<u32> = (0..=mt).collect();
+                dists[dc] = AnsDist::random(&mut rng, &toks, log_alpha);
+            }
+        }
+        self.ans = Some(AnsSpec { log_alpha, dists });
     }
 
     /// The trivial coder of the minimal recipe: single cluster, every value is token 0.
@@ -399,6 +739,8 @@ impl Coder {
             configs: vec![IntConfig { split_exponent: 0, msb: 0, lsb: 0 }],
             codes: vec![PrefixCode::single_symbol(0)],
             max_value: 0,
+            ans: None,
+            pending: Pending::default(),
         }
     }
 
@@ -469,6 +811,17 @@ impl Coder {
                 }
             }
         }
+        if let Some(ans) = &self.ans {
+            w.bool(false); // ANS
+            w.w((ans.log_alpha - 5) as u64, 2);
+            for c in &self.configs {
+                c.write(w, ans.log_alpha);
+            }
+            for d in &ans.dists {
+                d.write(w);
+            }
+            return;
+        }
         w.bool(true); // use_prefix_code
         for c in &self.configs {
             c.write(w, 15);
@@ -485,8 +838,42 @@ impl Coder {
     pub fn write_value(&self, w: &mut BitWriter, ctx: u32, v: u32) {
         let cl = self.cluster_map[ctx as usize] as usize;
         let (t, nb, b) = self.configs[cl].encode(v);
+        if self.ans.is_some() {
+            self.pending.0.lock().unwrap().push(Tok { cluster: cl as u8, token: t as u16, nbits: nb as u8, bits: b });
+            return;
+        }
         self.codes[cl].write_symbol(w, t);
         w.w(b as u64, nb);
+    }
+
+    /// Ends a coded run (`Decoder::begin` .. `finalize` on the decoder side). Prefix codes: nothing
+    /// to do. ANS: the state threads backwards through the tokens, so the run is emitted here —
+    /// initial state (32 bits), then per token the 16 refill bits (when the decoder's state
+    /// underflows after that token) and its raw bits.
+    pub fn end_session(&self, w: &mut BitWriter) {
+        let Some(ans) = &self.ans else { return };
+        let toks = std::mem::take(&mut *self.pending.0.lock().unwrap());
+        let rev: Vec<Vec<Vec<u16>>> = ans.dists.iter().map(|d| d.reverse_table(ans.log_alpha)).collect();
+        let mut state: u32 = 0x130000;
+        let mut refill: Vec<Option<u16>> = vec![None; toks.len()];
+        for (i, t) in toks.iter().enumerate().rev() {
+            let table = &rev[t.cluster as usize][t.token as usize];
+            let f = table.len() as u32;
+            assert!(f > 0, "token {} has zero frequency in its ANS distribution", t.token);
+            if (state >> 20) >= f {
+                refill[i] = Some((state & 0xffff) as u16);
+                state >>= 16;
+            }
+            let idx = table[(state % f) as usize] as u32;
+            state = ((state / f) << 12) | idx;
+        }
+        w.w(state as u64, 32);
+        for (t, r) in toks.iter().zip(&refill) {
+            if let Some(bits) = r {
+                w.w(*bits as u64, 16);
+            }
+            w.w(t.bits as u64, t.nbits as u32);
+        }
     }
 
     /// Writes an LZ77 copy command: `len` symbols from `distance_value` (raw distance symbol).
@@ -494,10 +881,18 @@ impl Coder {
         let lz = self.lz77.as_ref().unwrap();
         let cl = self.cluster_map[ctx as usize] as usize;
         let (t, nb, b) = lz.len_config.encode(len - lz.min_length);
+        let dc = *self.cluster_map.last().unwrap() as usize;
+        if self.ans.is_some() {
+            let mut p = self.pending.0.lock().unwrap();
+            p.push(Tok { cluster: cl as u8, token: (lz.min_symbol + t) as u16, nbits: nb as u8, bits: b });
+            // the distance symbol is read in either mode (RLE: the one-symbol distribution, no bits)
+            let (t, nb, b) = if lz.rle { (1, 0, 0) } else { self.configs[dc].encode(distance_value) };
+            p.push(Tok { cluster: dc as u8, token: t as u16, nbits: nb as u8, bits: b });
+            return;
+        }
         self.codes[cl].write_symbol(w, lz.min_symbol + t);
         w.w(b as u64, nb);
         if !lz.rle {
-            let dc = *self.cluster_map.last().unwrap() as usize;
             let (t, nb, b) = self.configs[dc].encode(distance_value);
             self.codes[dc].write_symbol(w, t);
             w.w(b as u64, nb);
